@@ -1078,9 +1078,80 @@ def rule_p12(F, bodies=None):
     return r
 
 
+def rule_p13(F):
+    """Identifiers are XID_Start (or `_`) followed by XID_Continue: the extent of an identifier / keyword token is fixed by a scan of
+    the tail whose predicate asks `is_xid_continue`.  On the MIR of Lexer::keyword_or_ident every path from the entry to the point
+    where the token is cut off (`bump_to` / `bump`) passes through such a scan.  (An ASCII fast path that scans `[a-zA-Z0-9_]*` and
+    cuts the token there splits `Straße` into `Stra` and `ße`.)  Limitation, stated: a fast path that falls back to the Unicode scan
+    behind an explicit `if` would have to be entered as reviewed - the rule asks for the scan on every path."""
+    r = RuleResult("C09.P13", "identifier tokens end where a scan with is_xid_continue ends, on every path of keyword_or_ident", floor=1)
+    ps = [p for p in F.paths() if p.endswith("::keyword_or_ident") and "parser::lexer" in p and "{closure" not in p]
+    if not ps:
+        r.missing("parser::lexer keyword_or_ident")
+        return r
+    b = F.body(ps[0])
+    if not b.mir:
+        r.missing("MIR of keyword_or_ident")
+        return r
+    defs = mir.Defs(b)
+
+    def asks_xid_continue(path, depth=0):
+        cb = F.body(path) if path and F.has(path) else None
+        if cb is None or not cb.mir or depth > 2:
+            return False
+        for _, t in mir.calls(cb):
+            d = (mir.callee_def(t) or "") + " " + (mir.callee(t) or "")
+            if "is_xid_continue" in d:
+                return True
+            c = mir.callee(t) or ""
+            if c.startswith("parser::") and c != path and asks_xid_continue(c, depth + 1):
+                return True
+        return any(asks_xid_continue(q, depth + 1) for q in F.paths() if q.startswith(path + "::{closure"))
+    scans, cuts = [], []
+    for bi, t in mir.calls(b):
+        nm = hir.last(mir.callee_def(t) or mir.callee(t) or "")
+        if nm in ("bump_to", "bump", "bump_by"):
+            cuts.append(bi)
+        ok = False
+        for a in t["args"]:
+            if mir.is_place_op(a):
+                for d in defs.whole_defs(a[1][0]):
+                    if d[2] == "assign" and d[3]["rv"]["k"] == "agg" and d[3]["rv"].get("ak") == "closure" and asks_xid_continue(d[3]["rv"].get("def")):
+                        ok = True
+            else:
+                c = mir.op_const(a)
+                if c is not None and "is_xid_continue" in str(c.get("fn") or c.get("ty") or ""):
+                    ok = True
+        c_ = mir.callee(t) or ""
+        if not ok and c_.startswith("parser::lexer") and c_ != b.path and hir.last(c_) not in ("bump_to", "bump") and asks_xid_continue(c_):
+            ok = True       # a private helper that makes the scan
+        if ok:
+            scans.append(bi)
+    if not cuts:
+        r.missing("the call that cuts the token off (bump_to) in keyword_or_ident")
+        return r
+    for cb_ in cuts:
+        seen, work, reached = set(), [0], False
+        while work:
+            x = work.pop()
+            if x in seen or x in scans:
+                continue
+            seen.add(x)
+            if x == cb_:
+                reached = True
+                break
+            work.extend(mir.succs(b.blocks[x]))
+        r.inst("token cut #%d" % cb_, {"line": b.blocks[cb_]["term"].get("line"), "xid_continue_scans": len(scans), "reachable_without_the_scan": reached})
+        if reached:
+            r.bad(b.path, "identifier cut off without an XID_Continue scan", relfile(b.file), b.blocks[cb_]["term"].get("line") or b.line,
+                  "a path of keyword_or_ident fixes the end of an identifier without scanning the tail with is_xid_continue: an identifier that continues with a non-ASCII XID_Continue "
+                  "character (`Straße`, `café_au_lait`) is cut into two tokens")
+    return r
+
+
 def rules(ctx):
     F = ctx["F"]
-    return [rule_p1(F), rule_p2(F), rule_p3(F), rule_p4(F), rule_p5(F), rule_p6(F), rule_p7(F), rule_p8(F), rule_p9(F), rule_p10(F), rule_p11(F), rule_p12(F)]
+    return [rule_p1(F), rule_p2(F), rule_p3(F), rule_p4(F), rule_p5(F), rule_p6(F), rule_p7(F), rule_p8(F), rule_p9(F), rule_p10(F), rule_p11(F), rule_p12(F), rule_p13(F)]
 
 
 def canary(C):
